@@ -1,5 +1,6 @@
 import BluetoeModel.NotifQueue.Irq
 import BluetoeModel.NotifQueue.Props
+import BluetoeModel.NotifQueue.FineChain
 /-!
   # C13 — Notification requests from interrupt context are never lost
 
@@ -86,5 +87,232 @@ theorem no_loss_if_atomic_consumer_first (q : Queue) (s : Spec) (h : RQ q s) (k 
 /-- non-vacuity of the hypotheses: a reachable state and an accepted request -/
 example : RQ (Queue.init [2]) (Spec.init [2]) ∧ ((Spec.init [2]).step (.queue .notification 1)).2 = .bool true :=
   ⟨RQ.init [2] (by decide), by decide⟩
+
+/-! ## Finest granularity: only the byte read-modify-writes are atomic (Fine.lean)
+
+  `fineRun q (k, i) k1 k2`: one consumer dequeue and one producer call `queue_*( i )`, the producer's
+  load (`result = ( queue_[ b ] & bits ) == 0`) taken immediately before the consumer's `k1`-th and the
+  producer's atomic `queue_[ b ] |= bits` immediately before the consumer's `k2`-th access to the
+  shared bytes; the consumer's accesses are the loads of its scan and, last, its atomic
+  `queue_[ b ] &= ~bit`.  `k1 ≤ k2` ranges over all interleavings of the two access sequences
+  (the interrupt on the same core is `k1 = k2`). -/
+
+theorem sdeqLv_out {ss : List SLevel} (hw : WFs ss) (off : Nat) (out : Option Nat) :
+    (sdeqLv ss off out).2.1 = newOut out (sdeqLv ss off out).2.2 := by
+  cases hr : (sdeqLv ss off out).2.2 with
+  | none => rw [(sdeqLv_none hw off out hr).1]; rfl
+  | some y =>
+    obtain ⟨k, g⟩ := y
+    obtain ⟨_, _, _, _, _, ho, _⟩ := sdeqLv_some hw off out k g hr
+    rw [ho, newOut_eq]
+
+theorem sdeqLv_totalSize : ∀ (ss : List SLevel) (off : Nat) (out : Option Nat),
+    totalSize (sdeqLv ss off out).1 = totalSize ss := by
+  intro ss
+  induction ss with
+  | nil => intro off out; rfl
+  | cons l ls ih =>
+    intro off out
+    have hs := SLevel.deq_size l off out
+    unfold sdeqLv
+    rcases hd : l.deq off out with ⟨l', o', r⟩
+    rw [hd] at hs
+    cases r with
+    | some x => simp only [totalSize]; rw [show l'.size = l.size from hs]
+    | none => simp only [totalSize, ih]; rw [show l'.size = l.size from hs]
+
+/-- the answer of `queue_*( i, k )` is the same before and after a dequeue that returns another request -/
+theorem queue_result_stable {ss : List SLevel} (hw : WFs ss) (out : Option Nat) (k : Kind) (i : Nat)
+    (hne : (sdeqLv ss 0 out).2.2 ≠ some (k, i)) :
+    (squeueLv (sdeqLv ss 0 out).1 i k).2 = (squeueLv ss i k).2 := by
+  have h1 := (squeueLv_spec (sdeqLv_wf hw 0 out) i k).1
+  have h0 := (squeueLv_spec hw i k).1
+  rw [Bool.eq_iff_iff, h1, h0, sdeqLv_totalSize]
+  cases hr : (sdeqLv ss 0 out).2.2 with
+  | none => rw [(sdeqLv_none hw 0 out hr).1]
+  | some y =>
+    obtain ⟨k', g⟩ := y
+    obtain ⟨i', hg, _, _, _, _, hupd, _⟩ := sdeqLv_some hw 0 out k' g hr
+    have hp := hupd i k
+    rw [hr] at hne
+    have hne' : ¬ (i = i' ∧ k = k') := by
+      intro e; apply hne; rw [e.1, e.2, hg]; rfl
+    constructor
+    · rintro ⟨a, b⟩
+      refine ⟨a, ?_⟩
+      cases hpp : pendLv ss i k with
+      | false => rfl
+      | true => rw [hp.mpr ⟨hpp, hne'⟩] at b; cases b
+    · rintro ⟨a, b⟩
+      refine ⟨a, ?_⟩
+      cases hpp : pendLv (sdeqLv ss 0 out).1 i k with
+      | false => rfl
+      | true => rw [(hp.mp hpp).1] at b; cases b
+
+/-- **C13 with atomic read-modify-writes, every schedule**: for every reachable queue state (`RQ q s`),
+    every producer request and every interleaving `k1 ≤ k2` at memory-access granularity the outcome
+    (producer's answer, consumer's result, queue afterwards) is that of the set specification running
+    the two calls in one of the two sequential orders —
+    * producer first, or
+    * consumer first, or
+    * consumer first except that the producer answers `false` ("was already queued") instead of
+      `true`: its load saw the request that the consumer was about to remove (`k1 ≤ n < k2`, `n` =
+      the consumer's RMW); the request is queued again by the producer's RMW. -/
+theorem fine_linearizable (q : Queue) (s : Spec) (h : RQ q s) (k : Kind) (i : Nat) (k1 k2 : Nat) (hk : k1 ≤ k2) :
+    ∃ o, fineRun q (k, i) k1 k2 = some o ∧
+      ((Out.bool o.pres = (s.step (.queue k i)).2 ∧ Out.entry o.deq = ((s.step (.queue k i)).1.step .deq).2 ∧
+          RQ o.q ((s.step (.queue k i)).1.step .deq).1) ∨
+       (Out.entry o.deq = (s.step .deq).2 ∧ Out.bool o.pres = ((s.step .deq).1.step (.queue k i)).2 ∧
+          RQ o.q ((s.step .deq).1.step (.queue k i)).1) ∨
+       (Out.entry o.deq = (s.step .deq).2 ∧ o.deq = some (k, i) ∧ o.pres = false ∧ k1 < k2 ∧
+          RQ o.q ((s.step .deq).1.step (.queue k i)).1)) := by
+  have hw : WFs s.levels := h.lv.wfs
+  obtain ⟨ls1, hq1, hr1⟩ := queueLv_refines h.lv i k
+  obtain ⟨r, n, rm0, rm1, hf, _, hT, hdisj⟩ := fchain_spec h.lv k k2 q.outstanding i 0 0 ls1 _ hq1
+  have hout := h.out
+  have hw1 : WFs (squeueLv s.levels i k).1 := squeueLv_wf hw i k
+  have hw0 : WFs (sdeqLv s.levels 0 s.outstanding).1 := sdeqLv_wf hw 0 s.outstanding
+  -- the two sequential runs of the specification
+  have eQ : s.step (.queue k i) = ({ s with levels := (squeueLv s.levels i k).1 }, .bool (squeueLv s.levels i k).2) := rfl
+  have eD : ∀ t : Spec, t.step .deq = ((⟨(sdeqLv t.levels 0 t.outstanding).1, (sdeqLv t.levels 0 t.outstanding).2.1⟩ : Spec),
+      Out.entry (sdeqLv t.levels 0 t.outstanding).2.2) := by
+    intro t
+    rcases hd : sdeqLv t.levels 0 t.outstanding with ⟨a, b, c⟩
+    simp only [Spec.step, hd]
+  rw [hout] at hf hT hdisj
+  by_cases hk2 : k2 ≤ n
+  · have hrun : fineRun q (k, i) k1 k2 = some (⟨(squeueLv s.levels i k).2, r,
+        ⟨rm1, newOut q.outstanding r⟩⟩ : FOutcome) := by
+      simp only [fineRun, hq1, hout, hf, hk2, if_true]
+    refine ⟨_, hrun, ?_⟩
+    have hPF : ViewBefore (squeueLv s.levels i k).1 0 s.outstanding r rm1 →
+        (Out.bool (squeueLv s.levels i k).2 = (s.step (.queue k i)).2 ∧
+          Out.entry r = ((s.step (.queue k i)).1.step .deq).2 ∧
+          RQ (⟨rm1, newOut q.outstanding r⟩ : Queue) ((s.step (.queue k i)).1.step .deq).1) := by
+      intro hB
+      refine ⟨by rw [eQ], ?_, ⟨?_, ?_⟩⟩
+      · rw [eQ, eD]; simp only; rw [hB.1]
+      · rw [eQ, eD]; exact hB.2
+      · rw [eQ, eD]; simp only; rw [sdeqLv_out hw1, hB.1, hout]
+    rcases hdisj with ⟨hA, hB | hC⟩ | hB
+    · exact Or.inl (hPF hB)
+    · right; left
+      refine ⟨by rw [eD]; simp only; rw [hA.1], ?_, ⟨?_, ?_⟩⟩
+      · rw [eD]
+        show Out.bool _ = Out.bool _
+        rw [queue_result_stable hw s.outstanding k i (by rw [hA.1]; exact hC.1)]
+      · rw [eD]; exact hC.2
+      · have e2 : ((s.step .deq).1.step (.queue k i)).1.outstanding = (s.step .deq).1.outstanding := rfl
+        rw [e2, eD]; show newOut q.outstanding r = _; rw [sdeqLv_out hw, hA.1, hout]
+    · exact Or.inl (hPF hB)
+  · have hA := hT (by omega)
+    obtain ⟨late, hq2, hr2⟩ := queueLv_refines hA.2 i k
+    have hrun : fineRun q (k, i) k1 k2 = some (⟨if k1 ≤ n then (squeueLv s.levels i k).2
+          else (squeueLv (sdeqLv s.levels 0 s.outstanding).1 i k).2, r,
+        ⟨late, newOut q.outstanding r⟩⟩ : FOutcome) := by
+      simp only [fineRun, hq1, hout, hf, hk2, if_false, hq2]
+    refine ⟨_, hrun, Or.inr ?_⟩
+    have hD : Out.entry r = (s.step .deq).2 := by rw [eD]; simp only; rw [hA.1]
+    have hRQ : RQ (⟨late, newOut q.outstanding r⟩ : Queue) ((s.step .deq).1.step (.queue k i)).1 := by
+      refine ⟨by rw [eD]; exact hr2, ?_⟩
+      have e2 : ((s.step .deq).1.step (.queue k i)).1.outstanding = (s.step .deq).1.outstanding := rfl
+      rw [e2, eD]; show newOut q.outstanding r = _; rw [sdeqLv_out hw, hA.1, hout]
+    by_cases hk1 : k1 ≤ n
+    · by_cases hsame : r = some (k, i)
+      · right
+        refine ⟨hD, hsame, ?_, by omega, hRQ⟩
+        simp only [hk1, if_true]
+        obtain ⟨i', hg, hlt, hp, _⟩ := sdeqLv_some hw 0 s.outstanding k i (by rw [hA.1, hsame])
+        have e : i' = i := by omega
+        subst e
+        cases hb : (squeueLv s.levels i' k).2 with
+        | false => rfl
+        | true => have := ((squeueLv_spec hw i' k).1.mp hb).2; rw [hp] at this; cases this
+      · left
+        refine ⟨hD, ?_, hRQ⟩
+        rw [eD]
+        show Out.bool _ = Out.bool _
+        simp only [hk1, if_true]
+        rw [queue_result_stable hw s.outstanding k i (by rw [hA.1]; exact hsame)]
+    · left
+      refine ⟨hD, ?_, hRQ⟩
+      rw [eD]
+      show Out.bool _ = Out.bool _
+      simp only [hk1, if_false]
+
+/-- non-vacuity: a reachable state, and a schedule for each of the three cases on `[2]` with
+    notification 0 pending and the producer requesting notification 0 again (consumer: load, RMW) -/
+example : RQ ((Queue.init [2]).run [.queue .notification 0]).1 ((Spec.init [2]).run [.queue .notification 0]).1 :=
+  (run_refines (RQ.init [2] (by decide)) _).2
+
+/-- **sharpened finding** (`C13:stale-result:load-before-rmw`, benign): atomic RMWs are not enough for
+    the *answer* of `queue_*`: the producer loads (`result = false`, "already queued"), the consumer
+    removes and returns the request, the producer's RMW queues it again — the answer is `false`
+    although the request is newly pending (sequentially: `true`); nothing is lost, the request is
+    transmitted twice, but `link_layer::queue_lcap_notification` does not wake up the radio for it. -/
+theorem stale_result_witness :
+    (fineRun ((Queue.init [2]).run [.queue .notification 0]).1 (.notification, 0) 0 2).map
+        (fun o => (o.pres, o.deq, drain o.q 5)) =
+      some (false, some (.notification, 0), [(.notification, 0)]) ∧
+    ((((Spec.init [2]).run [.queue .notification 0]).1.step .deq).1.step (.queue .notification 0)).2 = .bool true := by
+  decide
+
+/-- **C13, no loss with atomic read-modify-writes**: under every schedule the producer's request —
+    whatever the answer — has been returned by this dequeue or is pending afterwards, and so is every
+    request that was pending before. -/
+theorem fine_no_loss (q : Queue) (s : Spec) (h : RQ q s) (k : Kind) (i : Nat) (k1 k2 : Nat) (hk : k1 ≤ k2) :
+    ∃ o s', fineRun q (k, i) k1 k2 = some o ∧ RQ o.q s' ∧
+      (i < totalSize s.levels → o.deq = some (k, i) ∨ s'.pending i k = true) ∧
+      (∀ j k', s.pending j k' = true → o.deq = some (k', j) ∨ s'.pending j k' = true) := by
+  have hw : WFs s.levels := h.lv.wfs
+  obtain ⟨o, hrun, hcase⟩ := fine_linearizable q s h k i k1 k2 hk
+  have hmem : ∀ {x : Option (Kind × Nat)} {a : Out} {g : Kind × Nat}, Out.entry x = a →
+      (Out.entry (some g) = a) → x = some g := by
+    intro x a g h1 h2; rw [← h1] at h2; exact (Out.entry.inj h2).symm
+  -- both sequential orders keep everything
+  have hPF : ∀ j k', (s.pending j k' = true ∨ (i < totalSize s.levels ∧ j = i ∧ k' = k)) →
+      ((s.step (.queue k i)).1.step .deq).2 = .entry (some (k', j)) ∨
+      ((s.step (.queue k i)).1.step .deq).1.pending j k' = true := by
+    intro j k' hp
+    have hp1 : (s.step (.queue k i)).1.pending j k' = true := ((squeueLv_spec hw i k).2 j k').mpr hp
+    rcases pending_until_dequeued _ (Spec.step_wf s hw _) j k' [.deq] hp1 (by simp) with a | a
+    · exact Or.inr a
+    · left
+      simp only [Spec.run, List.mem_singleton] at a
+      exact a.symm
+  have hCF : ∀ j k', (s.pending j k' = true ∨ (i < totalSize s.levels ∧ j = i ∧ k' = k)) →
+      (s.step .deq).2 = .entry (some (k', j)) ∨ ((s.step .deq).1.step (.queue k i)).1.pending j k' = true := by
+    intro j k' hp
+    have hw' := Spec.step_wf s hw .deq
+    have hts : totalSize (s.step .deq).1.levels = totalSize s.levels := sdeqLv_totalSize _ _ _
+    rcases hp with hp | hp
+    · rcases pending_until_dequeued s hw j k' [.deq] hp (by simp) with a | a
+      · exact Or.inr (((squeueLv_spec hw' i k).2 j k').mpr (Or.inl a))
+      · left
+        simp only [Spec.run, List.mem_singleton] at a
+        exact a.symm
+    · exact Or.inr (((squeueLv_spec hw' i k).2 j k').mpr (Or.inr ⟨by rw [hts]; exact hp.1, hp.2⟩))
+  rcases hcase with ⟨_, hd, hrq⟩ | ⟨hd, _, hrq⟩ | ⟨hd, _, _, _, hrq⟩
+  · refine ⟨o, _, hrun, hrq, fun hi => ?_, fun j k' hp => ?_⟩
+    · rcases hPF i k (Or.inr ⟨hi, rfl, rfl⟩) with a | a
+      · exact Or.inl (hmem hd a.symm)
+      · exact Or.inr a
+    · rcases hPF j k' (Or.inl hp) with a | a
+      · exact Or.inl (hmem hd a.symm)
+      · exact Or.inr a
+  · refine ⟨o, _, hrun, hrq, fun hi => ?_, fun j k' hp => ?_⟩
+    · rcases hCF i k (Or.inr ⟨hi, rfl, rfl⟩) with a | a
+      · exact Or.inl (hmem hd a.symm)
+      · exact Or.inr a
+    · rcases hCF j k' (Or.inl hp) with a | a
+      · exact Or.inl (hmem hd a.symm)
+      · exact Or.inr a
+  · refine ⟨o, _, hrun, hrq, fun hi => ?_, fun j k' hp => ?_⟩
+    · rcases hCF i k (Or.inr ⟨hi, rfl, rfl⟩) with a | a
+      · exact Or.inl (hmem hd a.symm)
+      · exact Or.inr a
+    · rcases hCF j k' (Or.inl hp) with a | a
+      · exact Or.inl (hmem hd a.symm)
+      · exact Or.inr a
 
 end BluetoeModel.NotifQueue
